@@ -1199,6 +1199,16 @@ static int _yr_re_emit(
     }
   }
 
+  // A node that produces no code at all (e.g. a{0}) starts where the code of
+  // whatever follows it starts; its location must not be left as a null
+  // reference, e+ and e{n,m} use it as a jump target.
+  if (YR_ARENA_IS_NULL_REF(instruction_ref))
+  {
+    instruction_ref.buffer_id = YR_RE_CODE_SECTION;
+    instruction_ref.offset = yr_arena_get_current_offset(
+        emit_context->arena, YR_RE_CODE_SECTION);
+  }
+
   if (code_ref != NULL)
     *code_ref = instruction_ref;
 
